@@ -61,6 +61,7 @@ def decMotion : List String → Option Motion
   | ["ab", l, r] => do pure (.bracket (← decChar l) (← decChar r) false)
   | ["iq", q] => do pure (.quote (← decChar q) true)
   | ["aq", q] => do pure (.quote (← decChar q) false)
+  | ["rep", rev] => do pure (.repeatFind none (← decBool rev))
   | ["raw", s, e, ty] => do
       pure (.raw { start := (← decInt s), stop := (← decInt e), type := (← decType ty) })
   | _ => none
@@ -106,6 +107,26 @@ def handle (toks : List String) : String :=
         | none => "err"
       | none => "bad-op"
     | _, _, _, _, _, _, _, _ => "bad-op"
+  | ["e2ep", t, c, ct, cl, fa, fk, fc, oa, opn, reg, ma, rev] =>
+    match decStr t, decNat c, decStr ct, decBool cl, decOptNat fa, decMotion [fk, fc], decOptNat oa,
+          decOptChar reg, decOptNat ma, decBool rev with
+    | some t, some c, some ct, some cl, some fa, some fm, some oa, some reg, some ma, some rev =>
+      match decOp opn reg with
+      | some op =>
+        let s : St := { text := t, cur := c, clip := { text := ct, lines := cl }, regs := [],
+                        insert := false }
+        match runKeysAfterFind env s fa fm oa op ma rev with
+        | some s' => encSt s'
+        | none => "err"
+      | none => "bad-op"
+    | _, _, _, _, _, _, _, _, _, _ => "bad-op"
+  | ["mvp", t, c, fa, fk, fc, ma, rev] =>
+    match decStr t, decNat c, decOptNat fa, decMotion [fk, fc], decOptNat ma, decBool rev with
+    | some t, some c, some fa, some fm, some ma, some rev =>
+      let s : St := { text := t, cur := c, clip := { text := [], lines := false }, regs := [],
+                      insert := false }
+      toString (moveAloneKeysAfterFind env s fa fm ma rev)
+    | _, _, _, _, _, _ => "bad-op"
   | "mv" :: t :: c :: ma :: mot =>
     match decStr t, decNat c, decOptNat ma, decMotion mot with
     | some t, some c, some ma, some m =>
